@@ -8,6 +8,8 @@ import (
 	"testing"
 	"time"
 
+	mail "github.com/wneessen/go-mail"
+
 	"verif/sim/sim"
 )
 
@@ -24,18 +26,21 @@ import (
 // that was set; and the same content under two chunkings renders to the same bytes.
 
 type C18Scenario struct {
-	Msg     MsgSpec  `json:"msg"`
-	Chunks2 [][]int  `json:"chunks2"` // alternative chunkings, one per producer
-	HdrEnc  string   `json:"hdrEnc,omitempty"`
-	Seed    uint64   `json:"seed"`
+	Msg     MsgSpec `json:"msg"`
+	Chunks2 [][]int `json:"chunks2"` // alternative chunkings, one per producer
+	HdrEnc  string  `json:"hdrEnc,omitempty"`
+	Seed    uint64  `json:"seed"`
+	// ReEnc: what is judged is a second render, made after the caller changed File.Enc of every
+	// file (the first render has fixed the files' header fields)
+	ReEnc bool `json:"reEnc,omitempty"`
 }
 
 type c18 struct{}
 
 func init() { register(&c18{}) }
 
-func (*c18) ID() string                      { return "C18" }
-func (*c18) Level() string                   { return "exploration" }
+func (*c18) ID() string                     { return "C18" }
+func (*c18) Level() string                  { return "exploration" }
 func (*c18) Decode(raw []byte) (any, error) { return decodeInto[C18Scenario](raw) }
 
 func genHeaderValue(r *sim.Rand) string {
@@ -204,6 +209,7 @@ func (p *c18) Gen(seed uint64, i int, tier string) (any, bool) {
 		}
 	}
 	sc := &C18Scenario{Msg: m, Seed: sim.Derive(seed, 18, uint64(i), 1)}
+	sc.ReEnc = nf > 0 && r.Chance(1, 5)
 	for k := 0; k < m.producerCount(); k++ {
 		sc.Chunks2 = append(sc.Chunks2, GenChunks(r))
 	}
@@ -347,6 +353,19 @@ func (p *c18) render(t *testing.T, sc *C18Scenario, alt bool) ([]byte, error, an
 			return
 		}
 		data, err = Render(b.Msg)
+		if err == nil && sc.ReEnc {
+			// the caller changes the files' encodings after a first render and renders again:
+			// whatever encoding each file is announced with then, its body must follow it
+			rot := map[mail.Encoding]mail.Encoding{mail.EncodingB64: mail.NoEncoding, mail.NoEncoding: mail.EncodingB64, mail.EncodingUSASCII: mail.EncodingB64, mail.EncodingQP: mail.NoEncoding}
+			for _, f := range append(b.Msg.GetAttachments(), b.Msg.GetEmbeds()...) {
+				if n, ok := rot[f.Enc]; ok {
+					f.Enc = n
+				} else {
+					f.Enc = mail.NoEncoding
+				}
+			}
+			data, err = Render(b.Msg)
+		}
 	})
 	return data, err, pan, st
 }
